@@ -27,6 +27,7 @@ type traceCtx struct {
 	restartEvery int
 	limit        int
 	newEvents    bool
+	only         map[string]bool // nil: every kind of event is kept
 }
 
 var ctx traceCtx
@@ -49,7 +50,7 @@ func onNewSolver(s *solver.Solver, pb *solver.Problem) {
 		}
 		s.VerifSetTrace(func(ev solver.VerifEvent) {
 			ctx.mu.Lock()
-			if len(ctx.events) < ctx.limit {
+			if len(ctx.events) < ctx.limit && (ctx.only == nil || ctx.only[ev.K]) {
 				ctx.events = append(ctx.events, M{"k": ev.K, "lit": ev.Lit, "lvl": ev.Lvl, "dec": ev.Dec,
 					"lits": nnInts(ev.Lits), "w": nnInts(ev.W), "d": ev.D, "lrn": ev.Lrn, "tl": ev.TL})
 			}
